@@ -245,35 +245,27 @@ func mergeIPAMConfig(c any, o any, path tree.Path) (any, error) {
 	if !ok {
 		return o, nil
 	}
-	for _, original := range originals {
-		right := convertIntoMapping(original, nil)
-		for _, override := range overrides {
-			left := convertIntoMapping(override, nil)
-			if left["subnet"] != right["subnet"] {
-				// check if left is already in ipamConfigs, add it if not and continue with the next config
-				if !slices.ContainsFunc(ipamConfigs, func(a any) bool {
-					return a.(map[string]any)["subnet"] == left["subnet"]
-				}) {
-					ipamConfigs = append(ipamConfigs, left)
-					continue
-				}
-			}
-			merged, err := mergeMappings(right, left, path)
-			if err != nil {
-				return nil, err
-			}
-			// find index of potential previous config with the same subnet in ipamConfigs
-			indexIfExist := slices.IndexFunc(ipamConfigs, func(a any) bool {
-				return a.(map[string]any)["subnet"] == merged["subnet"]
-			})
-			// if a previous config is already in ipamConfigs, replace it
-			if indexIfExist >= 0 {
-				ipamConfigs[indexIfExist] = merged
-			} else {
-				// or add the new config to ipamConfigs
-				ipamConfigs = append(ipamConfigs, merged)
-			}
+	// every original config is kept; an override with the same subnet is merged into it, any other one is appended
+	ipamConfigs = append(ipamConfigs, originals...)
+	for _, override := range overrides {
+		left, ok := override.(map[string]any)
+		if !ok {
+			ipamConfigs = append(ipamConfigs, override) // not a config mapping: left to schema validation
+			continue
 		}
+		index := slices.IndexFunc(ipamConfigs, func(a any) bool {
+			right, ok := a.(map[string]any)
+			return ok && reflect.DeepEqual(right["subnet"], left["subnet"])
+		})
+		if index < 0 {
+			ipamConfigs = append(ipamConfigs, left)
+			continue
+		}
+		merged, err := mergeMappings(ipamConfigs[index].(map[string]any), left, path)
+		if err != nil {
+			return nil, err
+		}
+		ipamConfigs[index] = merged
 	}
 	return ipamConfigs, nil
 }
